@@ -466,7 +466,7 @@ func (s *state) visitCall(node *ast.CallNode) {
 				dataExpr += param.Key + ": " + s.block(param.Value)
 			case *ast.CallParamContentNode:
 				var oldBufferName = s.bufferName
-				s.bufferName = s.scope.makevar("param")
+				s.bufferName = s.scope.newvar("param")
 				s.jsln("var ", s.bufferName, " = '';")
 				s.walk(param.Content)
 				dataExpr += param.Key + ": " + s.bufferName
